@@ -124,7 +124,7 @@ def Cons.isAvailable (c : Cons) : Bool := c.credit > 0
 
 /-! ## the burst rule -/
 
-/-- Which variant of the burst code: the tree as found, or with `repo_patches/fix-C15-*.diff`. -/
+/-- Which variant of the burst code: the tree as found, or the repaired rule (`repo_patches/experimental-C15-burst-credit.diff`). -/
 structure Rule where
   /-- padding of an Initial-bearing datagram is capped by the credit (as found: padded to the full buffer) -/
   capPad : Bool
@@ -246,10 +246,11 @@ def stepR (r : Rule) (s : PathSt) : AaOp → PathSt
   | .abort => { s with aa := s.aa.abort }
   | .poll => let (a, b) := s.aa.balance; { s with aa := a, waiting := b = .wait }
 
-/-- The tree with the C15 fixes applied (statement shape of DESIGN Appendix A). -/
-def step : PathSt → AaOp → PathSt := stepR Rule.fixed
-/-- The tree as found. -/
-def stepFound : PathSt → AaOp → PathSt := stepR Rule.asFound
+/-- The tree as found (statement shape of DESIGN Appendix A). -/
+def step : PathSt → AaOp → PathSt := stepR Rule.asFound
+/-- A repaired burst rule (`Rule.fixed`): the design target the bound is proved for.  The experimental
+    patch that implements it literally stalls the repo's handshake tests, see docs/C15.md. -/
+def stepRepaired : PathSt → AaOp → PathSt := stepR Rule.fixed
 end Path
 
 def NotGranted (ops : List AaOp) : Prop := ∀ op ∈ ops, op ≠ AaOp.grant
